@@ -248,7 +248,8 @@ class CreationTime(Signature):
     def created_datetime(self, val):
         if val.tzinfo is None:
             warnings.warn("Passing TZ-naive datetime object to CreationTime subpacket")
-        self._created = val
+        # the subpacket holds whole seconds; the object must not say anything else than what it will write
+        self._created = val.replace(microsecond=0)
 
     @created.register(int)
     def created_int(self, val):
